@@ -149,7 +149,17 @@ class Lib:
             m = self.prog.modules.get(ap[:-1])
             if m is not None and ap[-1] in m.consts:
                 c = m.consts[ap[-1]]
+                if c.get('k') == 'Lazy':
+                    cache = getattr(I, 'static_cache', None)
+                    if cache is None or getattr(I, 'static_cache_path', None) is not I.effects:
+                        cache = I.static_cache = {}
+                        I.static_cache_path = I.effects          # one evaluation per explored path (the effect log is per path)
+                    if ap in cache:
+                        return cache[ap]
                 v = self._eval_in_module(c['expr'], m.path)
+                if c.get('k') == 'Lazy':
+                    v = self._mark_shared(v, '::'.join(ap))
+                    I.static_cache[ap] = v
                 if c.get('k') == 'Lazy' and isinstance(v, Opaque) and v.tag == 'SyncObj':
                     # a static: one object for the whole process, shared by every target
                     return Opaque('SyncObj', kind=v.get('kind'), shared='::'.join(ap), oid=0, inner=v.get('inner'))
@@ -166,6 +176,16 @@ class Lib:
         if s in ('std::u64::MAX', 'u64::MAX'):
             return (1 << 64) - 1
         raise Unsupported('path expression %s' % s, e)
+
+    def _mark_shared(self, v, name):
+        """Channel ends that live in a static are process-wide objects shared by every target."""
+        if isinstance(v, RTuple):
+            return RTuple(tuple(self._mark_shared(x, name) for x in v.items))
+        if isinstance(v, Opaque) and v.tag in ('Sender', 'Receiver') and not v.get('shared'):
+            d = dict(v.data)
+            d['shared'] = name
+            return Opaque(v.tag, **d)
+        return v
 
     def _eval_in_module(self, expr, module):
         from .interp import Frame
@@ -679,6 +699,11 @@ class Lib:
             return I.call_value(f.get('f'), [], node)
         if kind == 'script':
             return I.world.run_script(I, f)
+        if kind == 'shared_acquire':
+            I.guard_seq += 1
+            I.held[I.guard_seq] = f.get('name')
+            I.effect('lock', name=f.get('name'), obj='Channel', how='send', gid=I.guard_seq)
+            return ok(UNIT)
         if kind == 'ready':
             return f.get('value')
         if kind == 'join2':
@@ -806,6 +831,9 @@ class Lib:
             return Opaque('SystemTime', t=I.fresh('now', 'bv', 64))
         if last2 in ('env::var_os', 'env::var'):
             return NONE
+        if last2 == 'thread::available_parallelism':
+            # environment value >= 1; the adversarial instance is a machine (or cpuset) with one CPU
+            return ok(Opaque('NonZeroUsize', n=1))
         if last2 == 'CtrlC::new':
             return ok(Opaque('Future', kind='ctrlc'))
         if last2 == 'Error::new':
@@ -1045,6 +1073,10 @@ class Lib:
             return ok(I.call_value(args[0], [x], node)) if is_ok else v
         if method == 'map_err':
             return v if is_ok else err(I.call_value(args[0], [x], node))
+        if method == 'map_or':
+            return I.call_value(args[1], [x], node) if is_ok else args[0]
+        if method == 'map_or_else':
+            return I.call_value(args[1], [x], node) if is_ok else I.call_value(args[0], [x], node)
         if method == 'and_then':
             return I.call_value(args[0], [x], node) if is_ok else v
         if method == 'or_else':
@@ -1656,6 +1688,21 @@ class Lib:
         I = self.I
         W = I.world
         tag = v.tag
+        if tag == 'NonZeroUsize' and method == 'get':
+            return v.get('n')
+        if tag in ('Sender', 'Receiver') and v.get('shared'):
+            # a bounded channel in a static used as a pool of slots: send = take a slot (may wait for other targets), recv = give one back
+            if tag == 'Sender' and method == 'send':
+                return Opaque('Future', kind='shared_acquire', name=v.get('shared'), chan=v.get('chan'))
+            if tag == 'Receiver' and method in ('try_recv', 'recv'):
+                gids = [g for g, nm in I.held.items() if nm == v.get('shared')]
+                if gids:
+                    g = gids[-1]
+                    I.held.pop(g)
+                    I.effect('unlock', name=v.get('shared'), gid=g)
+                    return ok(UNIT) if method == 'try_recv' else Opaque('Future', kind='ready', value=ok(UNIT))
+                return err(REnum('TryRecvError', 'Empty')) if method == 'try_recv' else Opaque('Future', kind='ready', value=err(Opaque('RecvError')))
+            raise Unsupported('%s::%s on a channel living in a static' % (tag, method), node)
         if tag == 'Sender':
             if method == 'send':
                 return Opaque('Future', kind='send', chan=v.get('chan'), msg=args[0])
